@@ -344,6 +344,15 @@ func (x *Exec) eval(env *Env, e CExpr) *Value {
 			if v.Typ != nil && isBVType(v.Typ, x.Mode) {
 				return &Value{T: app("bvnot", x.term(v)), Typ: v.Typ}
 			}
+		case "*":
+			if v.Typ == nil {
+				x.limit("dereference of a ghost value in contract")
+			}
+			src := env.st
+			if env.inOld && env.old != nil {
+				src = env.old
+			}
+			return x.loadIn(src, x.ptrOf(v))
 		}
 		x.limit("unsupported unary %s in contract", e.Op)
 	case *CBin:
